@@ -152,8 +152,8 @@ impl Check for C01 {
                 continue;
             }
             let mut frames: Vec<crate::lensweep::Frame> =
-                crate::lensweep::packet_frames(v, true).into_iter().filter(|f| f.b0 != 0x81 && f.pt != 0 && f.pt != 192 && (f.delta == 0 || (f.pt == 207 && f.delta.abs() == 1))).collect();
-            frames.extend(crate::lensweep::compound_frames(v).into_iter().filter(|f| f.pt != 201 && (f.trail || f.delta == 0)));
+                crate::lensweep::packet_frames(v, true).into_iter().filter(|f| f.b0 != 0x81 && f.pt != 0 && f.pt != 192 && (f.delta == 0 || (f.delta > 4 && (v < 4 || v >= 0xfffe)) || (f.pt == 207 && f.delta.abs() == 1))).collect();
+            frames.extend(crate::lensweep::compound_frames(v).into_iter().filter(|f| f.pt != 201 && (f.trail || f.delta == 0 || (f.delta > 4 && (v < 4 || v >= 0xfffe)))));
             for fr in frames {
                 crate::lensweep::with_frame(&fr, |d| {
                     ctx.stats.fault("hdr-length-sweep", 1);
